@@ -579,7 +579,7 @@ func c03Cases(tier string, seed uint64) []fw.Case {
 	// random documents, 10 per case
 	n := 33
 	if tier == "thorough" {
-		n = 1830
+		n = 18000
 	}
 	for i := 0; i < n; i++ {
 		cs = append(cs, fw.Case{Kind: "random", Seed: gen.Sub(seed, "c03r", i), P: map[string]int64{"docs": 10}})
